@@ -144,13 +144,15 @@ def run_one(spec):
         res['census_late'] = census(pool, set(pids) | {p.pid for p in pool._pool})
     elif kind == 'hard_timeout':
         pool = bp.Pool(spec.get('n', 1), timeout=spec.get('hard', 1), threads=True)
-        first = pool.apply_async(t_pid, (0,)).get(timeout=10)
-        r = pool.apply_async(t_sleep, (30,))
+        pool.apply_async(t_pid, (0,)).get(timeout=10)
+        owner = []
+        r = pool.apply_async(t_sleep, (30,), accept_callback=lambda pid, t: owner.append(pid))
         t1 = time.time()
         res['outcome'] = outcome(r, wait=spec.get('hard', 1) + 6)
         res['failed_after_s'] = round(time.time() - t1, 2)
         time.sleep(1.5)
-        res['old_worker_alive'] = alive(first)
+        res['owner_known'] = bool(owner)
+        res['old_worker_alive'] = alive(owner[0]) if owner else None
         later = pool.apply_async(t_double, (5,))
         res['later'] = outcome(later, wait=10)
         pool.terminate()
